@@ -10,7 +10,8 @@ def run(c):
               "1-3 contiguous LODs, 0-5 storage rows per second with tags in 0..3 and string-top values from a 5-string pool, 1-3 handler-whats "
               "(8-18 requested functions give 2-3), row markers copied from storage rows (45%), random (25%) or absent, ascending/descending, "
               "limit 1..6 / total / large, tag values small (0..3) or, in a quarter of the cases, raw 64-bit values over the whole int64 range "
-              "(MinInt64, MaxInt64, +-6e18, +-2^62, pairs more than 2^63 apart), storage answers consistent across functions (75%) or thinned per function, sorted (85%: the rows of one "
+              "(MinInt64, MaxInt64, +-6e18, +-2^62, pairs more than 2^63 apart), group-by tags mapped (integer), unmapped (integer 0 + string value in stag[j]) or unspecified in a third of the cases, "
+              "storage answers consistent across functions (75%) or thinned per function, sorted (85%: the rows of one "
               "second in the order ClickHouse gives them for the ORDER BY text the real query builder generates for this request) or shuffled, "
               "clean (92%) or with duplicate keys / ungrouped tags / rows outside their LOD, 1/60 answers are errors; 1-4 direct limitQueries calls "
               "per case plus one getTableFromLODs call, plus 2-3 calls of the REAL getHandlerWhat (function lists with every DigestWhat code, duplicates, runs sharing a storage selector, more "
@@ -24,7 +25,9 @@ def run(c):
         "getHandlerWhat is modelled (SH.Model.Table: selectorOf, sortFns, groupStep) and compared with the real function on generated function "
         "lists of every kind; DigestWhat.Selector() is compared code by code (seltab). value() is not modelled: the table pipeline requests "
         "only functions whose value is one stored field at LOD step = query step = 1 (exact integers; unique* on an empty sketch = 0)",
-        "strings are compared through order-preserving codes of a fixed pool; numeric tag 47 is 0 (SKey comes from the string column)",
+        "strings are compared through order-preserving codes of a fixed pool; numeric tag 47 is 0 (SKey comes from the string column); the row key "
+        "of the model is (time, integer tag values, unmapped string values of the tags, string-top key) = tableRowKey{time, tsTags} restricted to "
+        "the tags the harness uses (shardNum, stagCount and tags beyond them are 0 in every stub row)",
         "sort.Sort leaves the order of rows with equal rowRepr unspecified: model and harness order such runs by the full key",
         "limit/has-more/page oracles apply only when every requested function sees the same clean keys (what a GROUP BY returns)",
         "ClickHouse is not run: the stub storage orders the rows of one second by reading ASC/DESC per key off the ORDER BY clause of the "
@@ -58,8 +61,8 @@ META = {
                   "(limitQueries, getTableFromLODs with a stub loadPoints, handleGetTable through GetLODs and cache2 with a stub loader) + direct "
                   "property oracle on the real results"),
     "text": ("Kernel-checked for every input: limitQueries returns exactly the first `limit` rows of the window in visiting order and has-more "
-             "iff the window holds more (limitQueries_window_limit); every table row lies in the window (rows_in_window); row keys are unique "
-             "(rows_unique_by_time_tags); the result is ordered by the visible key in the requested direction (rows_sorted), where the comparator is "
+             "iff the window holds more (limitQueries_window_limit); every table row lies in the window (rows_in_window); row keys are unique, the key being the whole tag block "
+             "including unmapped string values of group-by tags (rows_unique_by_time_tags; a slimmer key is refuted by a decide witness); the result is ordered by the visible key in the requested direction (rows_sorted), where the comparator is "
              "exactly the lexicographic order on (time, number of tags, tag values as unbounded integers, skey) and a strict total order "
              "(less_lex, less_total) — the real comparators are checked against it on boundary int64 pairs; the table holds exactly "
              "the pages of the requested functions across the LOD split and has-more is exact (table_page); getHandlerWhat drops no requested function and keeps their order, 1..7 selectors per storage query "
